@@ -113,6 +113,13 @@ class Arr:
         return Arr(rec(self.a, 0), self.shape)
 
 
+class StarArg:
+    """`*x` where x is a collection of symbolic length (kept as one marker argument)"""
+
+    def __init__(self, value):
+        self.value = value
+
+
 class SymIter:
     """an iterable of symbolic length: item getter by position (0-based)"""
 
@@ -678,6 +685,13 @@ class Ctx:
         self.pc.append(Z(c))
 
     def oblige(self, label, kind, goal, line, note=""):
+        # the same (label, decisions) emitted again on the SAME path (unrolled loop, comprehension, repeated call
+        # site with no fork in between) is a different obligation: it used to be dropped by the collector's
+        # de-duplication; it now gets the suffix ~2, ~3, ... (first occurrence keeps its id)
+        seen = self.__dict__.setdefault("_ob_seen", {})
+        k = seen[(label, tuple(self.taken))] = seen.get((label, tuple(self.taken)), 0) + 1
+        if k > 1:
+            label = f"{label}~{k}"
         key = (self.fname, self.case.name, label, tuple(self.taken))
         self.collector.add(
             Obligation(self.fname, label, kind, line, list(self.pc), Z(goal), case=self.case.name, key=key,
@@ -731,6 +745,8 @@ class Ctx:
                 return v != 0
         if isinstance(v, Ref):
             return True
+        if hasattr(v, "truth"):
+            return v.truth
         raise Unsupported(f"truthiness of {v!r}")
 
     # ---- expressions ---------------------------------------------------------------
@@ -825,6 +841,8 @@ class Ctx:
         for op, rn in zip(n.ops, n.comparators):
             right = self.ev(rn)
             c = self.compare(op, left, right, n)
+            if len(n.ops) == 1 and not isinstance(c, bool) and not is_z3(c):
+                return c  # non-scalar result of a single comparison (mask object made by a ``__cmp__`` hook)
             res = And(res, c) if not (isinstance(res, bool) and isinstance(c, bool)) else (res and c)
             left = right
         return res
@@ -843,6 +861,11 @@ class Ctx:
                 r = a.oid == b.oid
             elif isinstance(a, str) or isinstance(b, str):
                 r = a == b if (isinstance(a, str) and isinstance(b, str)) else False
+            elif not is_z3(a) and not is_z3(b) and not isinstance(a, Opaque) and not isinstance(b, Opaque):
+                r = a is b  # python level sentinels (builtins, Ellipsis, ...)
+            elif (isinstance(a, Opaque) and not is_z3(b) and not isinstance(b, Opaque)) or \
+                    (isinstance(b, Opaque) and not is_z3(a) and not isinstance(a, Opaque)):
+                r = False  # an opaque value is, by kind enumeration, none of the python-level sentinels
             else:
                 raise Unsupported(f"'is' on {a!r}, {b!r} at line {n.lineno}")
             return r if isinstance(op, ast.Is) else Not(r)
@@ -863,6 +886,10 @@ class Ctx:
             return self.lex_lt(b, a, sym == ">=")
         if is_num(a) and is_num(b):
             return num_cmp(sym, a, b)
+        # ordering comparison on non-scalars (numpy-like ``s > cutoff`` giving a mask): contract hook
+        r = self.contract.call(self, "__cmp__", [sym, a, b], {}, n)
+        if r is not NotImplemented:
+            return r
         raise Unsupported(f"comparison {sym} on {a!r}, {b!r}")
 
     def lex_lt(self, a, b, orequal):
@@ -1048,17 +1075,80 @@ class Ctx:
             return r
         raise Unsupported(f"subscript of {base!r} at line {line}")
 
+    def ev_Yield(self, n):
+        # generator functions: the sequence of yielded values is collected per path in ``cx.yielded`` (the
+        # contract's ensures reads it at the end of the path; generators under contract have no side effects, so
+        # lazy and eager evaluation agree).  A contract may intercept with ``on_yield(cx, value, node)``.
+        v = self.ev(n.value) if n.value is not None else None
+        hook = getattr(self.contract, "on_yield", None)
+        if hook is not None and hook(self, v, n) is not NotImplemented:
+            return None
+        if not hasattr(self, "yielded"):
+            self.yielded = []
+        self.yielded.append(v)
+        return None
+
+    def ev_Slice(self, n):
+        # a slice inside a subscript tuple (``X[a:b, :]``): the value ("slice", lo, hi, step); contracts interpret it
+        # in their ``__getitem__`` hook
+        return ("slice", self.ev(n.lower) if n.lower else None, self.ev(n.upper) if n.upper else None,
+                self.ev(n.step) if n.step else None)
+
     def ev_JoinedStr(self, n):
         return self.Opaque("fstr")
 
     def ev_Lambda(self, n):
         return ("lambda", n, dict(self.env))
 
+    def apply_lambda(self, lam, args):
+        """apply a lambda value (closure over the environment at its creation) to positional arguments"""
+        _, n, env = lam
+        params = [a.arg for a in n.args.args]
+        if len(params) != len(args):
+            raise PyRaise("TypeError", n.lineno)
+        saved = self.env
+        self.env = dict(env)
+        self.env.update(zip(params, args))
+        try:
+            return self.ev(n.body)
+        finally:
+            self.env = saved
+
     def ev_GeneratorExp(self, n):
-        return tuple(self.comprehension(n))
+        try:
+            return tuple(self.comprehension(n))
+        except Unsupported:
+            r = self.contract.call(self, "__genexp__", [n], {}, n)
+            if r is not NotImplemented:
+                return r
+            raise
 
     def ev_ListComp(self, n):
         return list(self.comprehension(n))
+
+    def ev_DictComp(self, n):
+        # {k: v for target in <concrete iterable> [if ...]}: same restrictions as comprehension(); keys concrete
+        if len(n.generators) != 1:
+            raise Unsupported("nested comprehension")
+        g = n.generators[0]
+        it = self.iter_concrete(self.ev(g.iter), n)
+        out = {}
+        saved = dict(self.env)
+        for item in it:
+            self.assign(g.target, item)
+            ok = True
+            for cond in g.ifs:
+                t = self.truth(self.ev(cond))
+                if not isinstance(t, bool):
+                    t = self.decide(t, n.lineno)
+                ok = ok and t
+            if ok:
+                k = self.ev(n.key)
+                if is_z3(k):
+                    raise Unsupported("symbolic dict key")
+                out[k] = self.ev(n.value)
+        self.env = saved
+        return out
 
     def comprehension(self, n):
         if len(n.generators) != 1:
@@ -1104,8 +1194,9 @@ class Ctx:
             if isinstance(a, ast.Starred):
                 v = self.ev(a.value)
                 if not isinstance(v, (tuple, list)):
-                    raise Unsupported(f"*args of symbolic length at line {n.lineno}")
-                args.extend(v)
+                    args.append(StarArg(v))  # a collection of symbolic length, passed on as one marker
+                else:
+                    args.extend(v)
             else:
                 args.append(self.ev(a))
         kwargs = {}
@@ -1150,6 +1241,9 @@ class Ctx:
                     raise PyRaise("KeyError", n.lineno)
             if isinstance(recv, list) and n.func.attr == "append":
                 recv.append(args[0])
+                return None
+            if isinstance(recv, list) and n.func.attr == "insert" and len(args) == 2 and isinstance(args[0], int):
+                recv.insert(args[0], args[1])
                 return None
             if isinstance(recv, (tuple, list)) and n.func.attr == "index":
                 for k, e in enumerate(recv):
@@ -1358,7 +1452,7 @@ class Ctx:
     def uf(self, name, args, sort=None):
         """application of an uninterpreted function symbol (same name+arity -> same symbol)"""
         zs = [Z(a) for a in args]
-        f = z3.Function(name, *[z.sort() for z in zs], sort or V)
+        f = z3.Function(name, *[z.sort() for z in zs], V if sort is None else sort)
         return f(*zs)
 
     # ---- statements -----------------------------------------------------------------
@@ -1373,6 +1467,20 @@ class Ctx:
                 if r is NotImplemented:
                     raise Unsupported(f"unpacking {val!r} at line {target.lineno}")
                 val = r
+            stars = [k for k, t in enumerate(target.elts) if isinstance(t, ast.Starred)]
+            if len(stars) == 1:
+                # ``*head, x = seq`` : the starred name takes the list of the remaining items
+                k, nt = stars[0], len(target.elts)
+                if len(val) < nt - 1:
+                    raise PyRaise("ValueError", target.lineno)
+                nstar = len(val) - (nt - 1)
+                val = list(val)
+                for t, v in zip(target.elts[:k], val[:k]):
+                    self.assign(t, v)
+                self.assign(target.elts[k].value, list(val[k:k + nstar]))
+                for t, v in zip(target.elts[k + 1:], val[k + nstar:]):
+                    self.assign(t, v)
+                return
             if len(val) != len(target.elts):
                 raise PyRaise("ValueError", target.lineno)
             for t, v in zip(target.elts, val):
@@ -1391,7 +1499,9 @@ class Ctx:
                 hook = getattr(self.contract, "on_store", None)
                 if hook is not None:
                     hook(self, target, base, idx, val)
-                new = base.set([I(i) for i in idx], as_val(val) if base.elem_sort() == V else Z(val))
+                # (a bool stored into an integer array is 0 / 1, as in numpy)
+                new = base.set([I(i) for i in idx], as_val(val) if base.elem_sort() == V else
+                               (I(val) if base.elem_sort() == z3.IntSort() else Z(val)))
                 if isinstance(target.value, ast.Name):
                     self.env[target.value.id] = new
                 else:
@@ -1512,12 +1622,51 @@ class Ctx:
             else:
                 raise Unsupported("del of non-name")
 
+    def st_FunctionDef(self, s):
+        # nested def: binds the name to a closure value ("def", node, env-at-definition); decorators are dropped
+        # unless the contract interprets the definition itself (hook "__def__": args [name, node]).  Closures are
+        # only ever *called* through a contract's call hook (see call_closure).
+        r = self.contract.call(self, "__def__", [s.name, s], {}, s)
+        if r is NotImplemented:
+            r = ("def", s, dict(self.env))
+        self.env[s.name] = r
+
+    def call_closure(self, clo, args, kwargs=None):
+        """execute the body of a nested def value inline (environment = the one captured at definition, updated
+        with the bound arguments).  Loops inside the body must be unrollable (no invariants for nested defs)."""
+        _, node, cenv = clo
+        a = bind_args(node, list(args), dict(kwargs or {}), self)
+        saved, saved_loops = self.env, self.loops
+        self.env = dict(cenv)
+        self.env.update(a.__dict__)
+        self.loops = loops_of(node)
+        self._closure_depth = getattr(self, "_closure_depth", 0) + 1
+        try:
+            self.block(node.body)
+            return None
+        except _Return as r:
+            return r.value
+        finally:
+            self.env, self.loops = saved, saved_loops
+            self._closure_depth -= 1
+
+    def st_With(self, s):
+        # context managers are treated as plain bindings (enter value = the context expression's value, no
+        # exception handling on exit): progress bars and the like.  Contracts decide what the expression returns.
+        for item in s.items:
+            v = self.ev(item.context_expr)
+            if item.optional_vars is not None:
+                self.assign(item.optional_vars, v)
+        self.block(s.body)
+
     # ---- loops
     def loop_spec(self, s):
         try:
             k = next(i for i, l in enumerate(self.loops) if l is s)
         except StopIteration:
             raise Unsupported("loop not found in syntactic list")
+        if getattr(self, "_closure_depth", 0):
+            return k, None  # loops inside nested defs carry no invariant: unrolled or unsupported
         spec = self.contract.loops.get(k)
         if callable(spec) and not isinstance(spec, Loop):
             spec = spec(self.case)
